@@ -1,4 +1,5 @@
 """C20 -- integer, vector and matrix helpers (DESIGN.md section 4, C20)."""
+import os
 import re
 from vf import lex
 from vf.extract import Source, Unit
@@ -28,7 +29,9 @@ TRUSTED = [
 ]
 ASSUMPTIONS = [
     'gcd at 16/32/64 bits (groups "divisibility[abstract predicate, modulo Euclid step lemma]"): the Euclid step lemma d|x and d|y <=> d|y and d|(x mod y) '
-    'and d|0 are ASSUMED (number theory; the same code is proved without them at 8 bits)',
+    'and d|0 are assumed inside cbmc (number theory; the same code is proved without them at 8 bits); they are machine-checked separately by the Lean 4 kernel '
+    '(spec/lemmas/EuclidStep.lean, group "Math.gcd.lemma[...]") when lean is installed -- what remains assumed is the link "the machine remainder of '
+    'non-negative operands is the remainder of the naturals they denote"',
     'gcd / reduce_fraction: operands non-negative (the property\'s domain); reduce_fraction: not both operands zero (0/0 divides by zero)',
     'vector operators at T = int64_t: the preconditions exclude exactly the inputs on which the native C++ operator is undefined '
     '(signed overflow, division by zero, INT64_MIN / -1); cross orthogonality and Matrix4 * Vector4 are stated at unsigned element '
@@ -512,6 +515,27 @@ def plan(ctx):
     um = math_unit(ctx, src)
     ctx.functions_under_contract = list(um.functions)
     groups += math_groups(ctx)
+    # the two number-theoretic facts that the abstract-predicate proof of gcd assumes (D(0), Euclid step lemma) are checked by the Lean 4
+    # kernel on every run when lean is installed (spec/lemmas/EuclidStep.lean, core library only); the group below records the outcome
+    import shutil as _sh, subprocess as _sp
+    from vf.pipeline import VERIF as _V
+    lean_ok, lean_msg = 0, 'lean not found on PATH: the lemma stays an assumption'
+    if _sh.which('lean'):
+        try:
+            pr = _sp.run(['lean', os.path.join(_V, 'spec', 'lemmas', 'EuclidStep.lean')], capture_output=True, text=True, timeout=300)
+            out = (pr.stdout + pr.stderr).strip()
+            lean_ok = int(pr.returncode == 0 and 'error' not in out and 'sorry' not in out)
+            lean_msg = ('accepted by lean (%s)' % ' '.join(out.split())[:160]) if lean_ok else ('lean rejected the file: %s' % ' '.join(out.split())[:300])
+        except (OSError, _sp.TimeoutExpired) as e:
+            lean_msg = 'lean could not be run (%s): the lemma stays an assumption' % e
+    ul = Unit(ctx, 'lemmas')
+    ul.raw('#define C20_EUCLID_STEP_BY_LEAN %d\n#define C20_LEAN_SAYS "%s"' % (lean_ok, lean_msg.replace('\\', '/').replace('"', "'")))
+    ul.write(suffix='.h', scan=False)
+    ctx.lean_euclid = (lean_ok, lean_msg)
+    if lean_ok or 'rejected' in lean_msg:
+        groups.append(Group(name='Math.gcd.lemma[D(0), Euclid step: Lean 4 kernel]', harness='harness/C20/lemmas.c', entry='h_lemmas', kind='lemma', min_post=1,
+                            function='spec/lemmas/EuclidStep.lean (d | 0;  d | x and d | y <=> d | y and d | x mod y, over the natural numbers)',
+                            clause_note='the number theory assumed by the groups "divisibility[abstract predicate, modulo Euclid step lemma]" is machine-checked: ' + lean_msg))
     ut, uv, table = vec_units(ctx, src)
     ctx.functions_under_contract += uv.functions
     groups += vec_groups(ctx, table)
